@@ -1,17 +1,17 @@
 SPECIFICATION Spec
 CONSTANTS
   ConvIds <- Ids3
-  Amounts <- AmtsA
-  Slips <- SlipsA
+  Amounts <- AmtsQ
+  Slips <- SlipsQ
   Flow = 100
-  Rates <- RatesB
-  KQs <- KQsA
+  Rates <- RatesQ1
+  KQs <- KQsQ
   Denoms <- DenomsA
   TrimIdx = 3
   GasOuts <- GasQ
   LockPeriod = 2
-  MaxHeight = 5
-  MaxOps = 11
+  MaxHeight = 4
+  MaxOps = 10
   MinQuai = 20
   InitQuai = 4000
   InitQi = 4000
